@@ -16,9 +16,11 @@ Fixpoint trim_len (fuel : nat) (b : bytes) (pos : nat) : nat :=
   | None => pos                                       (* fewer than 4 bytes left: not a size prefix *)
   | Some (szb, b1) =>
       let sz := le_val szb in
-      let n := N.to_nat (if DEL <=? sz then sz - DEL else sz) in
+      let szn := if DEL <=? sz then sz - DEL else sz in
+      if N.of_nat (length b1) <? szn then pos else    (* the record is not complete (compared in N: a garbage size is never built in unary) *)
+      let n := N.to_nat szn in
       match take n b1 with
-      | None => pos                                   (* the record is not complete *)
+      | None => pos
       | Some (_, b2) => trim_len fuel' b2 (pos + 4 + n)
       end
   end end.
@@ -40,12 +42,14 @@ Proof.
   - rewrite <- !app_assoc. rewrite (take_app 4) by apply le_bytes_length.
     rewrite le_val_bytes by (cbn [N.of_nat]; change (N.pos (Pos.of_succ_nat 3)) with 4; lia).
     destruct (N.leb_spec DEL (blen k + blen v)) as [H|_]; [lia|].
+    destruct (N.ltb_spec (N.of_nat (length (k ++ v ++ rest))) (blen k + blen v)) as [H|_]; [rewrite !app_length in H; unfold blen in H; lia|].
     rewrite app_assoc. rewrite (take_app (N.to_nat (blen k + blen v))) by (rewrite app_length; unfold blen; lia).
     f_equal. rewrite !app_length, le_bytes_length. unfold blen. lia.
   - rewrite <- app_assoc. rewrite (take_app 4) by apply le_bytes_length.
     rewrite le_val_bytes by (cbn [N.of_nat]; change (N.pos (Pos.of_succ_nat 3)) with 4; lia).
     destruct (N.leb_spec DEL (n + DEL)) as [_|H]; [|lia].
     replace (n + DEL - DEL) with n by lia.
+    destruct (N.ltb_spec (N.of_nat (length (repeat 0 (N.to_nat n) ++ rest))) n) as [H|_]; [rewrite app_length, repeat_length in H; lia|].
     rewrite (take_app (N.to_nat n)) by apply repeat_length.
     f_equal. rewrite app_length, le_bytes_length, repeat_length. lia.
 Qed.
@@ -79,10 +83,10 @@ Proof.
       apply take_app. apply le_bytes_length. }
     rewrite Ht4. rewrite le_val_bytes by (cbn [N.of_nat]; change (N.pos (Pos.of_succ_nat 3)) with 4; lia).
     destruct (N.leb_spec DEL (blen k + blen v)) as [H|_]; [lia|].
-    unfold take. rewrite firstn_length.
     assert (Hkv : length (k ++ v) = N.to_nat (blen k + blen v)) by (rewrite app_length; unfold blen; lia).
     rewrite !app_length, le_bytes_length in Hlen, Hj.
-    destruct (Nat.leb_spec (N.to_nat (blen k + blen v)) (Nat.min (j - 4) (length (k ++ v)))); [lia|]. reflexivity.
+    destruct (N.ltb_spec (N.of_nat (length (firstn (j - 4) (k ++ v)))) (blen k + blen v)) as [_|H]; [reflexivity|].
+    rewrite firstn_length in H. lia.
 Qed.
 
 (* the file a crash leaves: complete records followed by a torn one.  Open cuts it back to exactly the complete records. *)
